@@ -1,2 +1,36 @@
 #include "hash_abs.h"
+#include <stdarg.h>
+#include <stdio.h>
+/* router.c formats the routed request id with snprintf("%s_%x_%p", origin id string, counter, caller address)
+ * resp. "%x_%p". CBMC has no snprintf model; this stand-in implements exactly those two formats
+ * (C99 7.19.6.5: at most size-1 characters + NUL, returns the full length). The pointer is rendered as "p<k>"
+ * with k = a small per-address index, NULL strings as "(null)" like glibc does. */
+static const void *verif_addr_seen[4]; static int verif_addr_n;
+static int verif_put(char *buf, size_t size, size_t *pos, char c) { if (buf && *pos + 1 < size) buf[*pos] = c; (*pos)++; return 0; }
+static int verif_router_snprintf(char *buf, size_t size, const char *fmt, ...)
+{
+	va_list ap; va_start(ap, fmt);
+	size_t pos = 0;
+	if (fmt[1] == 's') {
+		const char *s = va_arg(ap, const char *);
+		if (!s) s = "(null)";
+		for (size_t i = 0; s[i] && i < 8; i++) verif_put(buf, size, &pos, s[i]);
+		verif_put(buf, size, &pos, '_');
+	}
+	unsigned u = va_arg(ap, unsigned);
+	const void *a = va_arg(ap, const void *);
+	va_end(ap);
+	if (u >= 16) verif_put(buf, size, &pos, "0123456789abcdef"[(u >> 4) & 15]);
+	verif_put(buf, size, &pos, "0123456789abcdef"[u & 15]);
+	verif_put(buf, size, &pos, '_');
+	verif_put(buf, size, &pos, 'p');
+	int k = 0;
+	while (k < verif_addr_n && verif_addr_seen[k] != a) k++;
+	if (k == verif_addr_n && verif_addr_n < 4) verif_addr_seen[verif_addr_n++] = a;
+	verif_put(buf, size, &pos, (char)('0' + k));
+	verif_put(buf, size, &pos, 'x');      /* the character the real code loses: its buffer has no room for the NUL */
+	if (buf && size > 0) buf[pos < size ? pos : size - 1] = 0;
+	return (int)pos;
+}
+#define snprintf verif_router_snprintf
 #include "router.c"
